@@ -1,1 +1,28 @@
-(* C07_refuted_chiaverini placeholder *)
+(* C07_refuted_chiaverini.v — witness of the known finding "chiaverini/half-turn-nan": at an exact half-turn every sign
+   factor is sign(0) = 0, so all four components are 0.  The 3x3 branch then falls back to the identity quaternion, the
+   N-by-3x3 branch divides 0 by 0 (NaN in floats; 0 in the real model).  Witness diag(1,-1,-1). *)
+From Coq Require Import Reals List Lra.
+From AhrsLib Require Import Base.
+From AhrsGen Require Import C07gen_R.
+From AhrsProps Require Import C07_tac.
+Import ListNotations.
+Open Scope R_scope.
+
+Lemma clip_m1 : Rmin (Rmax (1 + -1 + -1) (-1)) 3 = -1.
+Proof. unfold Rmax. destruct (Rle_dec (1 + -1 + -1) (-1)); [|lra]. unfold Rmin. destruct (Rle_dec (-1) 3); lra. Qed.
+
+Theorem C07_chiaverini_half_turn_refuted : exists r00 r01 r02 r10 r11 r12 r20 r21 r22 l1 l2,
+  C07_chiaverini_s_R r00 r01 r02 r10 r11 r12 r20 r21 r22 = Val l1 /\
+  C07_chiaverini_b1_R r00 r01 r02 r10 r11 r12 r20 r21 r22 = Val l2 /\ nth 0 l1 0 = 1 /\ nth 0 l2 0 = 0.
+Proof.
+  exists 1, 0, 0, 0, (-1), 0, 0, 0, (-1).
+  assert (Z1 : 1 / 2 * sqrt (Rmin (Rmax (1 + -1 + -1) (-1)) 3 + 1) = 0)
+    by (rewrite clip_m1; replace (-1 + 1) with 0 by ring; rewrite sqrt_0; ring).
+  assert (S0 : Rsgn (0 - 0) = 0) by (replace (0 - 0) with 0 by ring; apply Rsgn_0).
+  unfold C07_chiaverini_s_R, C07_chiaverini_b1_R. cbv zeta. rewrite Z1, S0. rewrite !Rmult_0_r, !Rmult_0_l.
+  repeat match goal with |- context [Req_EM_T 0 0] => destruct (Req_EM_T 0 0) as [_|N]; [|exfalso; apply N; reflexivity] end.
+  eexists. eexists. split; [reflexivity|]. split; [reflexivity|]. simpl. split.
+  - match goal with |- context [sqrt ?e] => replace e with 1 by ring end. rewrite sqrt_1. field.
+  - unfold Rdiv. ring.
+Qed.
+Print Assumptions C07_chiaverini_half_turn_refuted.
